@@ -97,6 +97,8 @@ func c10Check(payload ledger.LogPayload, ik string) {
 	want := h.Sum(nil)
 	log.ComputeHash(nil)
 	verifAssert("C10:stored-memento-hashes-to-what-ComputeHash-computes", bytes.Equal(want, log.Hash))
+	// the same obligation read as C09: the hash the database stores for the log is the documented one (recomputable from an export)
+	verifAssert("C09:the-stored-hash-is-the-documented-hash-of-the-log", bytes.Equal(want, log.Hash))
 	verifReach("end")
 }
 
